@@ -211,8 +211,13 @@ def ov_labels(spec, ovs):
         keys = {(b, s, r, c) for r in range(r1, r2 + 1) for c in range(c1, c2 + 1)}
         what = 'name' if ov[0] == 'name' else 'range'
         aliased = False
+        chain = set()
+        if ov[0] == 'name':
+            chain = {i for i, nm in enumerate(names) if nm.get('alias') == ov[1]} | ({names[ov[1]]['alias']} if 'alias' in names[ov[1]] else set())
+            if 'alias' in names[ov[1]]:
+                lb.add('ov:name-alias-chain')
         for i, nm in enumerate(names):
-            if ov[0] == 'name' and i == ov[1]:
+            if (ov[0] == 'name' and i == ov[1]) or i in chain:
                 continue
             nb, ns, a1_, b1_, a2_, b2_ = nm['rect']
             if keys & {(nb, ns, r, c) for r in range(a1_, a2_ + 1) for c in range(b1_, b2_ + 1)}:
